@@ -1937,6 +1937,22 @@ func (m *Model) applyStream(c Call, o Obs) []Hit {
 	switch c.Op.Tgt {
 	case "plain":
 		doPull(o.Msgs)
+	case "later-ack-mixed":
+		// the follow-up acknowledges the ids chosen before the session AND every
+		// message the stream had delivered when it went in
+		var p0, p1 []RecvMsg
+		for _, rm := range o.Msgs {
+			if rm.Phase == 0 {
+				p0 = append(p0, rm)
+				settle.AckIDs = append(settle.AckIDs, rm.AckID)
+			} else {
+				p1 = append(p1, rm)
+			}
+		}
+		doPull(p0)
+		settle.Op.K = "ack"
+		hits = append(hits, m.applyAck(settle, so)...)
+		doPull(p1)
 	case "later-ack", "later-nack", "later-extend":
 		// the stream first serves what is due at its opening; the follow-up request
 		// (carrying ids chosen before the session) is processed after that; what the
